@@ -6,21 +6,68 @@ from vlib import *
 import drvjobs
 
 META = {
-    'functions_encoded': ['main.c: compile_file (nanoc driver, phases 1-6 gating)', 'nanovirt/main.c: main (nano_virt driver: --run, --emit-nvm, native wrapper, -o x.nvm --run)'],
+    'functions_encoded': ['typechecker.c: check_statement (block, unsafe block, call, return, assert, if), check_expression (literals, call)', 'main.c: compile_file (nanoc driver, phases 1-6 gating)', 'nanovirt/main.c: main (nano_virt driver: --run, --emit-nvm, native wrapper, -o x.nvm --run)'],
     'bounds': {'phase outcomes': 'every combination of success/failure of lexer, parser, import processing, type check, shadow tests, transpiler/code generator, serializer, fopen, cc/system, VM run',
                'command lines': 'nano_virt: --run | --emit-nvm -o out.nvm | -o out.bin | -o out.nvm --run ; nanoc: in.nano -o out.bin with symbolic -S/--keep-c/--verbose'},
-    'outside': ['the type checker\'s own decisions (which programs it rejects): rule kernels on typechecker.c were planned (DESIGN.md section 4/C05) but not built - the seeded changes C05/a (unsafe-block flag not restored) and C05/b (implicit return injection) live there and are NOT detected',
+    'outside': ['the type checker\'s decisions beyond three rule kernels (external call outside unsafe, return of the wrong type, non-bool condition; literals only): operand/argument types, arity, unknown names, immutability, missing return (the parser\'s implicit-return injection: seed C05/b), undefined fields/variants, resource use are NOT decided',
                 'the back half of nanoc\'s driver after transpile_to_c (cc command line, temp files): paths end at the transpile stub', 'loops after transpilation are cut at 8 iterations without unwinding assertion in the nanoc job (irrelevant to the rejection paths, which contain no loop)'],
     'assumptions': ['every function without a body in the harness binary returns an arbitrary value (goto-instrument --generate-function-body nondet-return); pointer safety of the drivers is not the subject (standard checks off)'],
     'stubs': ['tokenize, parse_program, process_imports, type_check, run_shadow_tests, transpile_to_c, codegen_compile, nvm_serialize, wrapper_generate*, vm_init/vm_execute, system, fopen/fwrite/fclose, create_environment, create_module_list (ghost flags: phase ran)'],
     'explanation': 'The real driver code runs with symbolic phase outcomes. Asserted: no phase runs after an earlier one failed; a failed lexer/parser/import/type-check (and for nanoc: shadow-test) phase gives a non-zero status with no code generation, no file opened for writing, no cc/system call, no VM execution; an accepted program reaches code generation.',
 }
 
+RULES = ([{'RULE': 1, 'UK': uk} for uk in (0, 1, 2, 3)] + [{'RULE': 1, 'UK': uk, 'NOTRAIL': 1} for uk in (1, 2, 3)]
+         + [{'RULE': 2, 'LK': lk} for lk in ('AST_NUMBER', 'AST_BOOL', 'AST_FLOAT', 'AST_STRING')]
+         + [{'RULE': 3, 'LK': lk, 'COND_IN': ci} for lk in ('AST_NUMBER', 'AST_BOOL', 'AST_FLOAT', 'AST_STRING') for ci in (0, 1)])
+UTXT = {0: '', 1: '    unsafe {\n        (getpid)\n    }\n', 2: '    unsafe {\n        return 0\n    }\n', 3: '    unsafe {\n        unsafe {\n        }\n        (getpid)\n    }\n'}
+
+def rule_jobs(prefix):
+    out = []
+    for d in RULES:
+        nm = '%s_rule_%s' % (prefix, '_'.join('%s%s' % (k.lower(), str(v).replace('AST_', '').lower()) for k, v in d.items()))
+        j = Job(name=nm, harness='tc_rules.c', sources=[], src_defines=dict(d, union='struct'), unwind=4, unwindset=['strcmp.0:24'], gen_bodies='keep-libc',
+                flags=['--slice-formula'], overflow=False, timeout=600, replay='custom' if d['RULE'] == 1 else 'none', must_witness=['checked'], group='typechecker_rule_kernels',
+                desc={'rule': {1: 'external call outside an unsafe context', 2: 'return of the wrong type', 3: 'non-bool condition'}[d['RULE']], 'shape': d,
+                      'symbolic': {1: 'callee extern or not, module unsafe or not, warning switches', 2: 'declared return type over int/bool/float/string/void', 3: '(none beyond the literal kind; declared return type)'}[d['RULE']],
+                      'modelling': 'typechecker.c compiled with -Dunion=struct; AST statically initialised; env_get_function knows one function `ext`'})
+        j.rule = d
+        out.append(j)
+    return out
+
+
+def rule_replay(job, failed, inputs, outdir):
+    """RULE 1 on the real nanoc: the same body as source text with libc's getpid as the external function."""
+    sys.path.insert(0, os.path.join(VERIF, 'gen'))
+    import e2
+    d = job.rule
+    ext, modunsafe = inputs.get('in_extern', 1) & 1, inputs.get('in_modunsafe', 0) & 1
+    if modunsafe:
+        return False, 'unsafe-module variant is not replayed'
+    decl = 'extern fn getpid() -> int\n\n' if ext else 'fn getpid() -> int {\n    return 1\n}\nshadow getpid { assert true }\n\n'
+    body = UTXT[d['UK']] + ('' if d.get('NOTRAIL') else '    (getpid)\n')
+    src = decl + 'fn f() -> int {\n' + body + '    return 0\n}\nshadow f { assert true }\n\nfn main() -> int {\n    return 0\n}\nshadow main { assert true }\n'
+    tools = e2.build_tools()
+    p = os.path.join(outdir, 'replay.nano'); open(p, 'w').write(src)
+    out = os.path.join(outdir, 'replay_bin')
+    rc, so, se = sh([os.path.join(tools, 'bin', 'nanoc_c'), p, '-o', out], timeout=300, cwd=tools, env=dict(os.environ, TMPDIR=outdir))
+    rv, sov, sev = sh([os.path.join(tools, 'bin', 'nano_virt'), p, '--emit-nvm', '-o', os.path.join(outdir, 'replay.nvm')], timeout=120, cwd=tools, env=dict(os.environ, TMPDIR=outdir))
+    must_reject = bool(ext) and not d.get('NOTRAIL')
+    open(os.path.join(outdir, 'output.txt'), 'w').write(src + '\n--- nanoc exit=%s ; nano_virt --emit-nvm exit=%s ; expected: %s\n%s\n' % (rc, rv, 'rejected' if must_reject else 'accepted', (so + se)[-1200:]))
+    open(os.path.join(outdir, 'cmd.txt'), 'w').write('nanoc_c replay.nano -o replay_bin ; nano_virt replay.nano --emit-nvm -o replay.nvm\n')
+    if must_reject and (rc == 0 or rv == 0):
+        return True, 'reproduced on the real compilers: external call outside unsafe accepted (nanoc exit=%s, nano_virt exit=%s)' % (rc, rv)
+    if not must_reject and rc != 0 and 'unsafe' in (so + se):
+        return True, 'reproduced on the real nanoc: a call that needs no unsafe context is rejected (exit=%s)' % rc
+    return False, 'did not reproduce on the real compilers (nanoc exit=%s, nano_virt exit=%s)' % (rc, rv)
+
+
 def main(pid='C05'):
     tier = tier_arg(); t0 = time.time()
     jobs = drvjobs.gate_jobs(pid.lower(), tier)
+    if pid == 'C05':
+        jobs += rule_jobs('c05')
     run_jobs(jobs)
-    sys.exit(finish(pid, tier, 'model_checking', jobs, META, t0))
+    sys.exit(finish(pid, tier, 'model_checking', jobs, META, t0, custom_replay=rule_replay))
 
 if __name__ == '__main__':
     main()
